@@ -236,6 +236,11 @@ class Engine(
                     # add a nested subquery here.  We do the same when the new
                     # column would shadow one that a Projection has hidden but
                     # that the Sort managed by this Select may still refer to.
+                    if select.has_sort and not select.has_slice:
+                        # Keep an unsliced Sort in the outer query, where it
+                        # still has an effect.
+                        subquery = select.reapply_skip(sort=None)
+                        return Select.apply_skip(operation._finish_apply(subquery), sort=select.sort)
                     return Select.apply_skip(operation._finish_apply(select))
                 elif select.has_projection:
                     return select.reapply_skip(
@@ -316,8 +321,10 @@ class Engine(
                     # This Select wraps a Chain operation in order to represent
                     # a SQL UNION or UNION ALL, and we trust the user's intent
                     # in putting those upstream of this operation, so we also
-                    # add a nested subquery here.
-                    return Select.apply_skip(operation._finish_apply(select))
+                    # add a nested subquery here.  Any Sort stays in the outer
+                    # query, where it still has an effect.
+                    subquery = select.reapply_skip(sort=None)
+                    return Select.apply_skip(operation._finish_apply(subquery), sort=select.sort)
                 else:
                     return select.reapply_skip(after=operation)
             case Slice():
